@@ -17,6 +17,10 @@ def f32(x):
     return struct.unpack('<I', struct.pack('<f', float(x)))[0]
 
 
+def f64(x):
+    return struct.unpack('<Q', struct.pack('<d', float(x)))[0]
+
+
 class Experiment:
     def __init__(self, seed, datatype='I', instruments=1, scatter_gain=None):
         self.dir = tempfile.mkdtemp(prefix='verif_xl_')
@@ -40,7 +44,7 @@ class Experiment:
                          'Fluorescence Channels': ', '.join(d['fl']), 'Time Channel': d['time']})
         return pd.DataFrame(rows).set_index('ID')
 
-    def write_fcs(self, name, iid, kind='cells', n=600, voltage=450, log_fl=True, seed=0, linear_scatter=False, nonneg=False, scatter_out=False):
+    def write_fcs(self, name, iid, kind='cells', n=600, voltage=450, log_fl=True, seed=0, linear_scatter=False, nonneg=False, scatter_out=False, time_order='sorted'):
         d = self.inst[iid]
         r = np.random.RandomState(seed)
         names = [d['fsc'], d['ssc']] + d['fl'] + [d['time']]
@@ -62,7 +66,12 @@ class Experiment:
             if kind != 'beads':
                 v[:3] = [0, res - 1, res - 1]          # saturated events
             cols.append(v)
-        cols.append(np.sort(r.uniform(0, 900, n)))
+        tcol = np.sort(r.uniform(0, 900, n))
+        if time_order == 'wrap':
+            tcol = np.round(tcol * 7) % 700          # a wrapping tick counter: not monotone along the event list
+        elif time_order == 'random':
+            tcol = r.permutation(tcol)
+        cols.append(tcol)
         data = np.stack(cols, axis=1)
         if self.datatype == 'I':
             ev = [[int(round(v)) for v in row] for row in data]
@@ -78,8 +87,12 @@ class Experiment:
                 idx = r.choice(np.arange(260, n - 110), size=max(4, n // 25), replace=False)
                 data[idx[::2], 0] = res + r.uniform(0, 400, len(idx[::2]))
                 data[idx[1::2], 1] = -r.uniform(50, 300, len(idx[1::2]))
-            ev = [[f32(v) for v in row] for row in data]
-            widths = [32] * D
+            if self.datatype == 'D':
+                ev = [[f64(v) for v in row] for row in data]
+                widths = [64] * D
+            else:
+                ev = [[f32(v) for v in row] for row in data]
+                widths = [32] * D
         pne = {}
         for i, nm in enumerate(names):
             if nm in d['fl'] and log_fl and self.datatype == 'I':
